@@ -163,6 +163,24 @@ Section WithDigest.
         end
     end.
 
+  (* odb.check(oid, check_hash=False): an existence query (stat), nothing is hashed, deleted or
+     protected; the same generated action lists, with check_hash = false *)
+  Definition check_nohash (w : world) (o : oid) : N * world :=
+    match lookup o (w_objs w) with
+    | None => (2, w)
+    | Some ob =>
+        let base := run_base w o (w_db w) (Base_check false [] o) in
+        match w_cls w with
+        | Base => base
+        | Local =>
+            match Local_check (o_mode ob) with
+            | CRetInfoMeta :: _ => (0, w)
+            | CSuper :: _ => base
+            | _ => (99, w)
+            end
+        end
+    end.
+
   (* oids_exist: Local = check per id, keeping the ids whose check did not raise
      (FileNotFoundError, ObjectFormatError); Base (dvc_objects) = fs.exists per id *)
   Definition exist_step (acc : list oid * world) (o : oid) : list oid * world :=
@@ -291,7 +309,8 @@ Section WithDigest.
   | OSaveRow (o : oid) (alg : name) (v : oid)          (* state.save(path of o, HashInfo(alg, v)) *)
   | ODropState                                         (* the state database is wiped *)
   | OCheckSeq (os : list oid)                          (* hashfile.check(odb, tree): entries, then the tree *)
-  | OXfer (v : bool) (items : list item).              (* transfer(staging, odb, ids, verify=v, hardlink=..) *)
+  | OXfer (v : bool) (items : list item)               (* transfer(src, odb, ids, verify=v, hardlink=..) *)
+  | OCheckNoHash (o : oid).                            (* odb.check(oid, check_hash=False) *)
 
   Inductive out :=
   | ONone
@@ -328,6 +347,7 @@ Section WithDigest.
     | ODropState => (with_db w [], ONone)
     | OCheckSeq os => let r := check_seq w os in (snd r, ORes (fst r))
     | OXfer v items => let r := xfer w v items in (snd r, OXfered (fst (fst r)) (snd (fst r)))
+    | OCheckNoHash o => let r := check_nohash w o in (snd r, ORes (fst r))
     end.
 
   Fixpoint run (w : world) (h : list op) : list out * world :=
@@ -374,6 +394,7 @@ End WithDigest.
 
 (* ---------------------------------------------------------------- correspondence input *)
 Definition md5_name : name := [109; 100; 53].
+Definition md5_d2u_name : name := [109; 100; 53; 45; 100; 111; 115; 50; 117; 110; 105; 120].  (* "md5-dos2unix" *)
 
 (* the digest as a table of the hashlib values of the contents in play (algorithm ignored: the
    stores of the correspondence all use md5) *)
@@ -384,11 +405,11 @@ Fixpoint tableH (tbl : list (bytes * oid)) (alg : name) (b : bytes) : oid :=
   end.
 
 Record case := Case {
-  c_cls : cls; c_state : bool; c_verify : bool; c_fmode : N;
+  c_cls : cls; c_alg : name; c_state : bool; c_verify : bool; c_fmode : N;
   c_tbl : list (bytes * oid); c_ops : list op }.
 
 Definition init_world (c : case) : world :=
-  W (c_cls c) md5_name (c_state c) (c_verify c) (c_fmode c) [] [].
+  W (c_cls c) (c_alg c) (c_state c) (c_verify c) (c_fmode c) [] [].
 
 Definition enc_run (c : case) : val :=
   let r := run (tableH (c_tbl c)) (init_world c) (c_ops c) in
